@@ -47,3 +47,8 @@ def subset(A, B):
     """every element of A occurs in B (field-wise equality)"""
     B = [tuple(b) for b in B]
     return all([tuple(a) in B for a in A])
+
+
+def insert_at(L, i, x):
+    L = list(L)
+    return L[:i] + [x] + L[i:]
